@@ -258,6 +258,12 @@ func runC53(c c53Case, rec *ev.Rec) error {
 				have[o.T] = o.String()
 			}
 			for _, o := range obs {
+				if have[o.T] != "" && have[o.T] != o.String() {
+					if p := r.M.Series[si].Pts[o.T]; p != nil && len(p.Vals) > 1 {
+						rec.Class("flushwal-duplicate-timestamp")
+						continue // see below: either stored value may be returned
+					}
+				}
 				if have[o.T] != o.String() {
 					return ev.Failf("FlushWAL block lacks head sample series %d t=%d %s (has %q)\nflushed:\n%shead of read-write open:\n%shistory:\n%s", si, o.T, o.String(), have[o.T], resultString(resF), resultString(resHead), r.TraceString())
 				}
@@ -269,6 +275,22 @@ func runC53(c c53Case, rec *ev.Rec) error {
 				have[o.T] = o.String()
 			}
 			for _, o := range obs {
+				if have[o.T] != "" && have[o.T] != o.String() {
+					// two values were stored at this timestamp (one in order, one through the
+					// out-of-order path): the merged read-write view returns either of them
+					if p := r.M.Series[si].Pts[o.T]; p != nil && len(p.Vals) > 1 {
+						ok := false
+						for _, v := range p.Vals {
+							if o.Matches(v) {
+								ok = true
+							}
+						}
+						if ok {
+							rec.Class("flushwal-duplicate-timestamp")
+							continue
+						}
+					}
+				}
 				if have[o.T] != o.String() {
 					return ev.Failf("FlushWAL block holds series %d t=%d %s which the read-write open does not return (%q)\nhistory:\n%s", si, o.T, o.String(), have[o.T], r.TraceString())
 				}
